@@ -25,7 +25,7 @@ RULE = (
     "panel, parse_source AST equality and generated-text equality; W5 every thread builds its own revisions of one "
     "experiment name (unique labels per construction); W2 concurrent calls on shared evaluators; W3 one "
     "evaluator toggled between texts A and B by a recompiler while callers evaluate (result must be A(x) or B(x)); W4 "
-    "failing recompiles racing with calls (callers keep seeing A); W6 all of it at once; W7 staggered constructions of a 1500-rung else-if ladder (outcome class compared). distinct_nontrivial = distinct (run, thread, op) "
+    "failing recompiles racing with calls (callers keep seeing A); W6 all of it at once; W7 staggered constructions of a 1500-rung else-if ladder (outcome class compared); W8 cold start: fresh interpreters whose first-ever constructions happen in 2..16 threads released together (W3 alternates between a same-name and an other-name revision). distinct_nontrivial = distinct (run, thread, op) "
     "results produced by worker threads that were released together by a barrier and ran concurrently (evidence of real "
     "overlap is reported separately: threads simultaneously inside parse_source, cross-thread switches between line events)."
 )
@@ -70,6 +70,7 @@ def w5_text(tag):
 W5_REF = w5_text("ref")
 TEXT_A = 'def ab { splitters: uid return "a1" weighted 1, "a2" weighted 1 }'
 TEXT_B = 'def ab { /* b */ splitters: uid if plan == "a" { return "b1" weighted 1 } else { return "b2" weighted 1, "b3" weighted 2 } }'
+TEXT_B2 = 'def other_name { /* b2 */ splitters: uid if plan == "a" { return "b1" weighted 1 } else { return "b2" weighted 1, "b3" weighted 2 } }'
 TEXT_BAD = ['def ab { splitters: uid return "a1" weighted 1; }', 'def ab { splitters: uid return "a1" weighted }', "def ab { /* open",
             'junk def ab { return "z" weighted 1 }']
 
@@ -177,7 +178,7 @@ class ParseOverlap:
 
 def sequential_reference(im):
     ref = {}
-    for text in SOURCES + [TEXT_A, TEXT_B, W5_REF]:
+    for text in SOURCES + [TEXT_A, TEXT_B, TEXT_B2, W5_REF]:
         c = im.construct(text)
         if c[0] != "ok":
             return None, (text, c)
@@ -195,12 +196,61 @@ def run_threads(workers, timeout):
     return not any(t.is_alive() for t in ths)
 
 
+def cold_start(ctx, ref):
+    """W8: fresh interpreters whose first-ever constructions happen in 2..16 threads released together; whatever is
+    initialised lazily on first use is raced here and nowhere else"""
+    import json
+    import shutil
+    import subprocess
+    import tempfile
+
+    from pyabv.run import HOME, PYTHON, REPO, jsonable
+
+    n = ctx.n(3, 40)
+    tmp = tempfile.mkdtemp(prefix="pyabv-cold-")
+    try:
+        for i in range(n):
+            nthreads = [16, 2, 8, 4, 16, 12][i % 6]
+            out = os.path.join(tmp, f"cold{i}.json")
+            env = dict(os.environ, PYTHONPATH=f"{HOME}:{os.path.join(REPO, 'src')}")
+            try:
+                p = subprocess.run([PYTHON, "-B", "-m", "pyabv.cold_child", str(nthreads), out], env=env, cwd=HOME, capture_output=True, timeout=300)
+            except subprocess.TimeoutExpired:
+                ctx.set_inconclusive("cold-start child watchdog fired")
+                return
+            if p.returncode != 0 or not os.path.exists(out):
+                ctx.set_inconclusive("cold-start child failed: " + p.stderr.decode("utf-8", "replace")[-300:])
+                return
+            with open(out, encoding="ascii") as f:
+                rows = json.load(f)
+            ctx.count("runs/W8-cold-start")
+            for ti, row in enumerate(rows):
+                wit = dict(workload="W8 cold start", child=i, threads=nthreads, thread=ti)
+                if row is None:
+                    ctx.set_inconclusive("cold-start child: a thread did not finish")
+                    return
+                text = SOURCES[row["source"]]
+                want = jsonable(ref[text]["panel"])
+                if row.get("panel") != want:
+                    ctx.violation("differs-from-sequential", dict(wit, kind="first-ever construction of the process", text=text[:300],
+                                                                  detail=row.get("construct") or row.get("raised") or row.get("panel")[:3]),
+                                  mechanism="C17/differs-from-sequential")
+                    return
+                ctx.evaluated()
+                ctx.nontrivial(ctx.shard, "cold", i, ti)
+    finally:
+        shutil.rmtree(tmp, ignore_errors=True)
+
+
 def run(ctx):
     im = impl()
     rnd = ctx.rnd
     ref, err = sequential_reference(im)
     if ref is None:
         ctx.violation("sequential-construction-failed", dict(text=err[0], error=err[1][1:]), mechanism="C17/sequential-baseline")
+        return
+    cold_start(ctx, ref)
+    if ctx.nviolations:
         return
     old_interval = sys.getswitchinterval()
     sys.setswitchinterval(1e-6)
@@ -364,6 +414,7 @@ def run(ctx):
                     shared["stop"] = False
                     shared["swaps"] = 0
                     shared["bad_accepted"] = []
+                    text_b = TEXT_B2 if run_i % 2 else TEXT_B  # the new revision may also carry another experiment name
 
                     def make(ti):
                         r = random.Random(seed + ti)
@@ -374,7 +425,7 @@ def run(ctx):
                                 for k in range(ops * 3):
                                     try:
                                         if workload == "W3":
-                                            cur = TEXT_B if cur == TEXT_A else TEXT_A
+                                            cur = text_b if cur == TEXT_A else TEXT_A
                                             ev.recompile(cur)
                                             shared["swaps"] += 1
                                         else:
@@ -400,7 +451,7 @@ def run(ctx):
                                 j = r.randrange(len(PANEL))
                                 try:
                                     got = im.call(ev, PANEL[j])
-                                    allowed = [ref[TEXT_A]["panel"][j]] + ([ref[TEXT_B]["panel"][j]] if workload == "W3" else [])
+                                    allowed = [ref[TEXT_A]["panel"][j]] + ([ref[text_b]["panel"][j]] if workload == "W3" else [])
                                     ok = got in allowed
                                     logs[ti].append((k, "racing-call", workload, ok, None if ok else (got, allowed)))
                                 except Exception as e:  # noqa: BLE001
